@@ -259,6 +259,11 @@ func TestWorker(t *testing.T) {
 		return false
 	}
 
+	var hashLog *os.File
+	if hp := os.Getenv("VERIF_HASHLOG"); hp != "" {
+		hashLog, _ = os.Create(hp)
+		defer hashLog.Close()
+	}
 	start := time.Now()
 	sum := msg{Type: "summary", Worker: worker, Probes: map[string]int{}, Faults: map[string]int{}, SigCounts: map[string]int{}}
 	hashes := map[uint64]bool{}
@@ -272,6 +277,13 @@ func TestWorker(t *testing.T) {
 		run := int64(worker) + i*workers
 		c := simrt.NewSearchChoice(seed, run)
 		res := runOnce(t, sc, c, tier, false)
+		if hashLog != nil {
+			var sg []string
+			for _, v := range res.Violations {
+				sg = append(sg, v.Sig)
+			}
+			fmt.Fprintf(hashLog, "%d %x %d %d %v\n", run, res.SchedHash, res.Steps, len(c.Rec), sg)
+		}
 		if res.Probes["mode.pure_input_enumeration"] > 0 {
 			sum.PureRuns++
 		}
